@@ -1,7 +1,7 @@
 (* wire glue for engine 107 (row codec, property C07) *)
 (* WIRE engine=107 fn=dispatch_c07 *)
 From Coq Require Import List NArith Bool.
-From RPFT Require Import Base.Sexp Base.PyStr Base.Result Gen.Tables Cell.Cell Row.Ty Row.Layout Row.RowParse Row.RowUnparse Row.FlowRow Row.RoundTrip Row.CtxRoundTripFacts Row.FlowRowFacts Row.Session Io.XlsxCell.
+From RPFT Require Import Base.Sexp Base.PyStr Base.Result Gen.Tables Cell.Cell Row.Ty Row.Layout Row.RowParse Row.RowUnparse Row.FlowRow Row.RoundTrip Row.CtxRoundTripFacts Row.FlowRowFacts Row.Session Io.XlsxCell Io.SheetHeaders.
 Import ListNotations.
 Local Open Scope N_scope.
 
@@ -67,6 +67,12 @@ Definition dispatch_c07 (fn : N) (args : list sexp) : sexp :=
   | 10, [t] =>
     match dec_str t with
     | Some t' => enc_str (xlsx_cell_roundtrip t')
+    | None => s_badinput
+    end
+  (* 11: the columns RowDataSheet._get_headers gives a sheet whose rows write these headers (as a set) *)
+  | 11, [L rows] =>
+    match dec_list_aux dec_strs rows with
+    | Some rows' => L (map enc_str (sheet_header_set rows'))
     | None => s_badinput
     end
   | _, _ => s_badinput
